@@ -39,6 +39,8 @@ THEOREMS = [
     "Claripy.Solver.satCacheQuery_spec", "Claripy.Solver.expansion_opt_spec", "Claripy.Solver.sL9_ok3",
     "Claripy.Solver.sol_step", "Claripy.Solver.sol_hist_giveup", "Claripy.Solver.cHyps",
     "Claripy.Solver.sol_batchEval_top", "Claripy.Solver.tuplesOk_merge", "Claripy.Solver.si_pickle",
+    "Claripy.Props.C11.C11_strings_refines", "Claripy.Props.C11.C11_strings_refines_or_gives_up",
+    "Claripy.Props.C11.C11_strings_step", "Claripy.Solver.stAdd_spec", "Claripy.Solver.stSimplify_spec",
 ]
 TESTS = []
 CLASSES = ["Solver", "SolverCacheless", "SolverStrings"]
